@@ -129,6 +129,10 @@ def make_plan(seed: int, tier: str, index: int) -> dict[str, Any]:
         # warnings are errors and nothing is compiled yet (an empty private cache of compiled
         # files): whatever the compiler or the module bodies warn about stops the import
         plan["werror_cold"] = True
+    if index % 9 == 4:
+        # the imports are made by a worker thread (one thread, started and joined: a lazy import
+        # in a pool worker), not by the main thread
+        plan["in_thread"] = True
     if index % 7 == 6:
         # the interpreter is started without file descriptor 2 (sys.stderr is None: pythonw, GUI
         # and embedded hosts, daemons started with stderr closed)
@@ -155,7 +159,7 @@ def import_lines(module: str, form: str) -> int:
 
 def _probe(imports: list[list[str]], hashseed: int, fault: dict[str, Any] | None = None,
            werror_cold: bool = False, environ: dict[str, str] | None = None,
-           no_stderr: bool = False) -> dict[str, Any]:
+           no_stderr: bool = False, in_thread: bool = False) -> dict[str, Any]:
     ms = modules()
     done = {m for m, _ in imports}
     rest = [m for m in ["chart"] + ms if m not in done]
@@ -179,13 +183,14 @@ def _probe(imports: list[list[str]], hashseed: int, fault: dict[str, Any] | None
         cold_dir = tempfile.mkdtemp(prefix="pyc-cold-", dir=env.scratch())
         penv["PYTHONPYCACHEPREFIX"] = cold_dir
         req["werror"] = True
+    targs = ["--in-thread"] if in_thread else []
     if no_stderr:
-        p = subprocess.run([env.PYTHON] + flags + ["-m", "detsim.importprobe"], input=json.dumps(req),
+        p = subprocess.run([env.PYTHON] + flags + ["-m", "detsim.importprobe"] + targs, input=json.dumps(req),
                            stdout=subprocess.PIPE, text=True, timeout=150, env=penv, cwd=env.VERIF_ROOT,
                            encoding="utf-8", preexec_fn=lambda: os.close(2))
         p.stderr = ""
     else:
-        p = subprocess.run([env.PYTHON] + flags + ["-m", "detsim.importprobe"], input=json.dumps(req),
+        p = subprocess.run([env.PYTHON] + flags + ["-m", "detsim.importprobe"] + targs, input=json.dumps(req),
                            capture_output=True, text=True, timeout=150,
                            env=penv, cwd=env.VERIF_ROOT, encoding="utf-8")
     if cold_dir:
@@ -235,7 +240,7 @@ def execute(plan: dict[str, Any]) -> dict[str, Any]:
             fault = {"step": 0, "at": 1 + int(plan["fault"]["frac"] * n) % n}
         got = _probe(plan["imports"], plan["hashseed"], fault=fault,
                      werror_cold=bool(plan.get("werror_cold")), environ=plan.get("environ"),
-                     no_stderr=bool(plan.get("no_stderr")))
+                     no_stderr=bool(plan.get("no_stderr")), in_thread=bool(plan.get("in_thread")))
         hist = " -> ".join(f"{m}[{f}]" for m, f in plan["imports"])
         if fault is not None:
             fr = got.get("fault") or {}
@@ -311,6 +316,7 @@ def execute(plan: dict[str, Any]) -> dict[str, Any]:
         "faults_configured": ({"import_interrupted": 1} if plan.get("fault") else {}),
         "knobs": {**({"warnings_as_errors_nothing_compiled_yet": 1} if plan.get("werror_cold") else {}),
                   **({"interpreter_started_without_stderr": 1} if plan.get("no_stderr") else {}),
+                  **({"imports_made_by_a_worker_thread": 1} if plan.get("in_thread") else {}),
                   **({"environment_variables_set_to_odd_values": 1} if plan.get("environ") else {})},
         "ops": len(plan["imports"]),
         "sample": {"imports": plan["imports"], "hashseed": plan["hashseed"]},
